@@ -960,8 +960,14 @@ impl BuiltInFunction {
                 };
 
                 let result: Primitive = match this {
-                    Primitive::Int(i32) => Primitive::Int(i32.abs()),
-                    Primitive::BigInt(i128) => Primitive::BigInt(i128.abs()),
+                    Primitive::Int(i32) => Primitive::Int(i32.checked_abs().with_context(|| {
+                        format!("attempt to take the absolute value with overflow (|{i32}| does not fit in an int)")
+                    })?),
+                    Primitive::BigInt(i128) => {
+                        Primitive::BigInt(i128.checked_abs().with_context(|| {
+                            format!("attempt to take the absolute value with overflow (|{i128}| does not fit in a bigint)")
+                        })?)
+                    }
                     Primitive::Byte(u8) => Primitive::Byte(*u8),
                     Primitive::Float(f64) => Primitive::Float(f64.abs()),
                     bad => unreachable!("{bad}"),
